@@ -68,17 +68,43 @@ def compile_objs(srcs, flags, outdir, tag):
         o = os.path.join(outdir, tag + "_" + re.sub(r"[^A-Za-z0-9]", "_", os.path.relpath(s, "/")) + ".o")
         objs.append(o)
         if not os.path.exists(o):
-            procs.append((s, subprocess.Popen([GXX] + flags + ["-c", s, "-o", o], stdout=subprocess.PIPE, stderr=subprocess.STDOUT, text=True)))
+            procs.append((s, o, subprocess.Popen([GXX] + flags + ["-c", s, "-o", o + ".tmp.o"], stdout=subprocess.PIPE, stderr=subprocess.STDOUT, text=True)))
     errs = []
-    for s, p in procs:
+    for s, o, p in procs:
         out, _ = p.communicate()
         if p.returncode != 0:
             errs.append((s, out))
+        else:
+            os.rename(o + ".tmp.o", o)
     return objs, errs
 
 
 class BuildError(Exception):
     pass
+
+
+class _dir_lock:
+    """serialise builds into one cache directory (several checks may run in parallel and share a harness)"""
+    def __init__(self, outdir):
+        os.makedirs(os.path.dirname(outdir), exist_ok=True)
+        self.path = outdir + ".lock"
+    def __enter__(self):
+        import fcntl
+        self.f = open(self.path, "w")
+        fcntl.flock(self.f, fcntl.LOCK_EX)
+    def __exit__(self, *a):
+        import fcntl
+        fcntl.flock(self.f, fcntl.LOCK_UN)
+        self.f.close()
+
+
+def _link(cmd, exe):
+    """link to a temporary name and rename: an existing `exe` is always complete"""
+    tmp = exe + ".tmp%d" % os.getpid()
+    r = run([tmp if c == exe else c for c in cmd])
+    if r.returncode != 0:
+        raise BuildError(r.stdout + r.stderr)
+    os.rename(tmp, exe)
 
 
 def build_rt(scn_cpp, lib_sources=(), extra_flags=(), std=None, extra_srcs=()):
@@ -101,15 +127,16 @@ def build_rt(scn_cpp, lib_sources=(), extra_flags=(), std=None, extra_srcs=()):
     exe = os.path.join(outdir, "harness")
     if os.path.exists(exe):
         return exe
-    os.makedirs(outdir, exist_ok=True)
-    tsan = flags + ["-fsanitize=thread", "-I" + rtdir]
-    objs1, e1 = compile_objs([scn] + lib, tsan, outdir, "t")
-    objs2, e2 = compile_objs([os.path.join(rtdir, "rt.cpp")] + extra, [f for f in flags if not f.startswith("-I" + REPO)] + ["-I" + rtdir], outdir, "r")
-    if e1 or e2:
-        raise BuildError("\n".join(f"{s}:\n{o}" for s, o in e1 + e2))
-    r = run([GXX, "-pthread", "-o", exe] + objs1 + objs2 + ["-ldl"])
-    if r.returncode != 0:
-        raise BuildError(r.stdout + r.stderr)
+    with _dir_lock(outdir):
+        if os.path.exists(exe):
+            return exe
+        os.makedirs(outdir, exist_ok=True)
+        tsan = flags + ["-fsanitize=thread", "-I" + rtdir]
+        objs1, e1 = compile_objs([scn] + lib, tsan, outdir, "t")
+        objs2, e2 = compile_objs([os.path.join(rtdir, "rt.cpp")] + extra, [f for f in flags if not f.startswith("-I" + REPO)] + ["-I" + rtdir], outdir, "r")
+        if e1 or e2:
+            raise BuildError("\n".join(f"{s}:\n{o}" for s, o in e1 + e2))
+        _link([GXX, "-pthread", "-o", exe] + objs1 + objs2 + ["-ldl"], exe)
     return exe
 
 
@@ -129,16 +156,17 @@ def build_plain(src, lib_sources=(), extra_flags=(), std=None, sanitize=None, na
     exe = os.path.join(outdir, name)
     if os.path.exists(exe):
         return exe
-    os.makedirs(outdir, exist_ok=True)
-    objs, errs = compile_objs([src] + list(extra_srcs) + lib, flags + ["-I" + srcdir], outdir, "p")
-    if errs:
-        raise BuildError("\n".join(f"{s}:\n{o}" for s, o in errs))
-    link = [GXX, "-pthread", "-o", exe] + objs
-    if sanitize:
-        link += ["-fsanitize=" + sanitize]
-    r = run(link)
-    if r.returncode != 0:
-        raise BuildError(r.stdout + r.stderr)
+    with _dir_lock(outdir):
+        if os.path.exists(exe):
+            return exe
+        os.makedirs(outdir, exist_ok=True)
+        objs, errs = compile_objs([src] + list(extra_srcs) + lib, flags + ["-I" + srcdir], outdir, "p")
+        if errs:
+            raise BuildError("\n".join(f"{s}:\n{o}" for s, o in errs))
+        link = [GXX, "-pthread", "-o", exe] + objs
+        if sanitize:
+            link += ["-fsanitize=" + sanitize]
+        _link(link, exe)
     return exe
 
 
